@@ -23,6 +23,9 @@ Recv == /\ Live("recv") /\ UNCHANGED stats
         /\ JudgeK(<< <<"C08.AllNamesReceived", { E.per[i].nb : i \in 1..Len(E.per) } = NamesOf(s.acc)>>,
                      <<"C08.TypedAccessors", \A i \in 1..Len(E.per) : TypedOK(E.per[i]) /\ E.per[i].contains>>,
                      <<"C08.ValuesPreservedInOrder", \A i \in 1..Len(E.per) : PreservedOK(E.per[i], s.acc)>>,
+                     \* asked for in any letter case, a name ending in -bin is never presented through the ASCII accessors, any other never through the binary ones
+                     <<"C08.TypedAccessorsInAnyLetterCase", Has(E, "variants") => \A i \in 1..Len(E.variants) :
+                          IF EndsWithBin(E.variants[i].nb) THEN (~E.variants[i].get /\ E.variants[i].all = 0) ELSE (~E.variants[i].get_bin /\ E.variants[i].all_bin = 0)>>,
                      <<"C08.IteratorsTagBySuffix", TaggedOK(E.iter) /\ TaggedOK(E.keys) /\ Len(E.iter) = Len(s.acc)>>,
                      <<"C08.ValueIteratorKinds", E.values_bin = Cardinality({ i \in 1..Len(s.acc) : s.acc[i].bin }) /\ E.values_ascii + E.values_bin = Len(s.acc)>>,
                      <<"Order", "wire" \in s.seen>> >>, [s EXCEPT !.seen = @ \cup {"recv"}])
